@@ -763,7 +763,19 @@ impl img::DiskImage for Woz2 {
     }
     fn to_bytes(&mut self) -> Vec<u8> {
         if self.track_bits_offset!=1536 {
-            panic!("track bits at a nonstandard offset");
+            // The image was loaded from a file with another chunk layout.  We always write
+            // INFO, TMAP, TRKS contiguously, so re-express the starting blocks for that layout.
+            if self.track_bits_offset%512!=0 {
+                panic!("track bits at a nonstandard offset");
+            }
+            let old_first_block = self.track_bits_offset/512;
+            for trk in self.trks.tracks.iter_mut() {
+                let start = u16::from_le_bytes(trk.starting_block) as usize;
+                if start>=old_first_block {
+                    trk.starting_block = u16::to_le_bytes((start + 3 - old_first_block) as u16);
+                }
+            }
+            self.track_bits_offset = 1536;
         }
         let mut ans: Vec<u8> = Vec::new();
         ans.append(&mut self.header.to_bytes());
